@@ -61,6 +61,25 @@ CHECKS = {
         note="Fault-free transitions only; Finals unconstrained for check mutations.",
         technique="runtime monitor: recording tracers + offline checker over the callback event log",
         engine="seqmach", design_ref="5/C14"),
+    "C05": dict(
+        level="exploration",
+        text="Generated schemas with acyclic After/Require graphs (long chains, non-adjacent constraints) and 1-3 recording handler bindings over every "
+             "possible handler name run generated histories once without vetoes and once per negotiation position that fired with a veto there. "
+             "Per transition the handler log (snapshot taken inside each handler) is judged: phase order Exit<Enter<self/state-state<AnyEnter<End<State<AnyState, "
+             "After/Require order inside each phase list, negotiation handlers see states-before and time-before, final handlers see the applied target, "
+             "nothing runs and nothing ticks after a veto, final handlers run exactly once per changed state per binding and never for canceled/check transitions.",
+        note="Ordering asserted only between states present in the same phase list; partial auto rejections are not vetoes of the transition. One known finding "
+             "(After ignored for non-neighbours) is identified structurally: the pair is non-adjacent in the list the resolver sorted; adjacent inversions and Require inversions are reported.",
+        technique="runtime monitor: in-handler snapshot log + recording tracer, per-position veto enumeration, declarative lifecycle oracle",
+        engine="seqmach", design_ref="5/C05"),
+    "C11": dict(
+        level="exploration",
+        text="Each generated (schema rich in Auto/mutual-Remove/Add-fan/independent-Require structure, static veto table, history) case is executed on 64 fresh "
+             "machines in one process - half built from a schema literal with shuffled insertion order - and the fingerprints (Result per step, Machine.Time per "
+             "step, handler-call sequence) must be identical; a tenth of the cases is executed again in another child process and compared by the parent.",
+        note="One issuing goroutine; random identifiers excluded from the fingerprint. 64 re-executions make a map-order dependence among k>=2 alternatives show with probability >= 1-2^-63.",
+        technique="runtime monitor: differential fingerprint across 64 in-process re-executions and across processes",
+        engine="seqmach", design_ref="5/C11"),
 }
 
 NOT_YET = "check not built yet in this round (planned, see DESIGN.md section 5)"
